@@ -591,12 +591,18 @@ func init() {
 		if len(samples) > 5 {
 			samples = samples[:5]
 		}
+		per, sexecs, sex := c08Schedules(rep, pool)
+		if !sex {
+			exhaustive = false
+		}
+		rep.Cov["concurrent_peers"] = per
+		rep.Cov["schedules"] = sexecs
 		rep.Cov["states"] = len(costs)
-		rep.Cov["transitions"] = reqs
-		rep.Cov["traces_validated_against_impl"] = reqs
-		rep.Cov["evaluations"] = reqs
+		rep.Cov["transitions"] = reqs + sexecs
+		rep.Cov["traces_validated_against_impl"] = reqs + sexecs
+		rep.Cov["evaluations"] = reqs + sexecs
 		rep.Cov["distinct_nontrivial"] = reqs
-		rep.Cov["rule"] = "every stored unit-cost string of the alphabet (integers incl. 0 and 2^32-1, leading zeros, decimal fractions, empty, non-numeric, negative, exponent, padded, overflowing) x 4 request sub-types x consumed/quota values {0,1,2,99,1000,65535,65536,2^31,2^32-1,u-1,u,u+1,7u,8u-1}; each sent over a real Diameter connection to the server started by rf.OpenServer"
+		rep.Cov["rule"] = "every stored unit-cost string of the alphabet (integers incl. 0 and 2^32-1, leading zeros, decimal fractions, empty, non-numeric, negative, exponent, padded, overflowing) x 4 request sub-types x consumed/quota values {0,1,2,99,1000,65535,65536,2^31,2^32-1,u-1,u,u+1,7u,8u-1}; each sent over a real Diameter connection to the server started by rf.OpenServer; plus (concurrent_peers) every schedule within the PARK bound of two / three peers with one request each in flight on separate connections, placed at the server's and peers' network, database and dispatcher operations; distinct_nontrivial counts the sequential requests only"
 		rep.Cov["unit_cost_strings"] = costs
 		rep.Cov["finding_counts"] = rules
 		rep.Cov["exhaustive"] = exhaustive
